@@ -28,14 +28,14 @@ CLAIMS = {
               'Live-side premises, checked under this property as well: RaftLog::append_and_apply journals a record only if the reference accepts it (rejected => nothing changed, nothing buffered) and buffers exactly enc(rec) for an accepted one; '
               'the flush worker batches every Write it receives and writes the batch to the newest file in request order. '
               'Lemma over the contracts (unit U11, no code): for a journal older ++ [State(h)] ++ newer whose chunk-head record carries the state at rotation (h == fold(init, older), proved under C11), replaying from that head from ANY starting state yields fold(init, whole journal) — so deleting older chunks and restarting reproduces the live state.  What is NOT decided: the journal-on-disk == journal-written link itself (C04+C11+file-system semantics) and the completeness half of the codec.'),
-        note=TRUST + ' ENVIRONMENT ASSUMPTION inside the replay loop (an explicit `assume`, listed in the evidence): each replayed record was accepted when it was journaled and magnitudes hold. RaftLogWAL::new (thread spawn) is an assumed contract; RaftLog::load_chunk_ids is under contract over abstract file names (rule E23: read_dir/OsString/str parsing replaced by stand-ins; the directory listing at open time and the parser are uninterpreted, sort() is an assumed sorted permutation).',
+        note=TRUST + ' ENVIRONMENT ASSUMPTION inside the replay loop (an explicit `assume`, listed in the evidence): each replayed record was accepted when it was journaled and magnitudes hold. RaftLogWAL::new is under contract (rule E24; only the thread start itself is assumed); RaftLog::load_chunk_ids is under contract over abstract file names (rule E23: read_dir/OsString/str parsing replaced by stand-ins; the directory listing at open time and the parser are uninterpreted, sort() is an assumed sorted permutation).',
         technique='Verus loop invariants over the chunk-loading loop + shared apply contract, on extracted code',
         design='5 C02',
     ),
     'C04': dict(
         text=('Unbounded deductive proof (Verus) of the flush worker against a ghost effect trace (Write/Sync/SetEvictable/Ack/Unlink events spliced mechanically after every effectful call, rule E9): '
               'history invariant "every successful Ack event is preceded by a state with no file written-and-not-synced" (acks_sound), "every file holding unsynced data is still tracked" (covered), '
-              'preserved by sync_all_files (also at its error exit: defect D7, fixed), handle_non_flush_request and every iteration of run_inner for an ARBITRARY next request and batch split; '
+              'established by FlushWorker::new (empty trace, exactly the open chunk file tracked), preserved by sync_all_files (also at its error exit: defect D7, fixed), handle_non_flush_request and every iteration of run_inner for an ARBITRARY next request and batch split; '
               'sender side: send_flush hands over exactly the bytes buffered since the last hand-over with sync=true and the callback, rotation queues the old tail as a synced Write before AppendFile. '
               'every batch produces exactly one Ack event per request that carries a callback, in request order (ack_ids(trace suffix) == cb_ids(batch)); at-most-once per callback is also Rust move semantics (Callback::send consumes self).'),
         note=TRUST + ' Assumed: write_all/sync_data semantics (a successful fdatasync makes all earlier writes to that file durable), FIFO channel, message invariant "every Write has sync == true" (proved on the sender in U5, assumed at recv), rule E7 desugaring of try_iter().take(n) and iter().any(). Liveness (every sent request is eventually processed) is not decided.',
@@ -62,7 +62,7 @@ CLAIMS = {
     'C07': dict(
         text=('Unbounded deductive proof (Verus) of the cache-pinning half of the property: no PayloadCache method (insert, try_evict, evict_first, drain_evictable, purge_upto) ever drops an entry above the evictable boundary, '
               'for an arbitrary boundary at entry (rely condition standing in for the worker thread); the new entry of an append stays resident if it is above the boundary; carried through RaftLogStateMachine::apply and RaftLog::append_and_apply; '
-              'worker side: the boundary is raised (SetEvictable event) only in a state where every file other than the newest tracked one is clean (evictable_sound, history invariant). '
+              'worker side: the boundary is raised (SetEvictable event) only in a state where every file other than the newest tracked one is clean (evictable_sound, history invariant; base case FlushWorker::new, carried by run/run_inner); the worker is started (RaftLogWAL::new, RaftLog::open) tracking the open chunk file with the last id of the newest CLOSED chunk as its first boundary, and every rotation hands it the state.last of the chunk being closed. '
               'read__entry / load_log_payload: an evicted entry is read from the closed chunk its index entry names, an unknown chunk is reported as NotFound (never a panic, given that index entries point at Append records on disk). KNOWN FINDING D8: an accepted TruncateAfter can leave the evictable boundary above `last` (the clause is proved for every other record kind). Not decided: the chain "every non-resident live entry lies in a closed chunk" and the concurrent-readers clause.'),
         note=TRUST + ' Lock sequentialised (E6). The concurrent-readers clause is Rust Sync typing + pread and has no contract.',
         technique='Verus pinning postconditions + history invariant, on extracted code',
